@@ -95,6 +95,9 @@ def cases(tier, sd):
                 out.append(dict(kind='operator', order=p, boundary=b, axis=ax,
                                 nmax=nmax, seed=sd))
             out.append(dict(kind='tensor', order=p, boundary=b, seed=sd))
+    for b in BOUNDARIES:
+        for perm in ([8, 2, 6, 4], [2, 4, 6, 8], [6, 8, 4, 2]):
+            out.append(dict(kind='sequence', boundary=b, orders=perm, seed=sd))
     return out
 
 
@@ -250,6 +253,8 @@ def run_tensor(spec, res):
         f0 = rng.normal(size=shape)
         f1 = rng.normal(size=(3,) + shape)
         f2 = rng.normal(size=(3, 3) + shape)
+        f2[0, 1] *= 1e-10          # a tiny but non-zero component is still differentiated
+        f2[2, 2] *= 1e-300
         f3 = rng.normal(size=(3, 3, 3) + shape)
         f1b = rng.normal(size=(4,) + shape)       # 4-vectors are used too
         D0 = np.array([s(f0) for s in sc])
@@ -284,7 +289,36 @@ def run_tensor(spec, res):
             cmpv(f"d3{nm} = d3x under axis exchange", sc[a](f), np.array(want))
 
 
+def run_sequence(spec, res):
+    """Objects of different orders built and used one after the other in ONE
+    process on axes of equal length (state shared between objects shows here)."""
+    b = spec['boundary']
+    rng = np.random.default_rng([int(spec['seed']), 71])
+    d = (0.25, 0.4, 0.125)
+    N = 14
+    shape = (N, N, N)
+    f = rng.normal(size=shape)
+    fds = [(p, make(p, b, shape, d)) for p in spec['orders']]
+    for rnd in range(2):
+        for p, fd in fds:
+            for ax, op in enumerate([fd.d3x, fd.d3y, fd.d3z]):
+                M = oracle_matrix(p, b, N) / d[ax]
+                ref = np.moveaxis(np.tensordot(M, np.moveaxis(f, ax, 0), axes=(1, 0)), 0, ax)
+                res['observations'] += 1
+                try:
+                    with common.Quiet():
+                        out = np.array(op(f))
+                    ok = out.shape == ref.shape and np.abs(out - ref).max() <= 1e-11 * np.abs(ref).max()
+                except Exception as e:
+                    ok = False
+                if not ok:
+                    common.add_violation(res, f"operator wrong after objects of other orders were used ({b})",
+                                         {"order": p, "sequence": spec['orders'], "axis": ax})
+                    return
+                res['nontrivial'].append(['sequence', b, p, ax, rnd, str(spec['orders'])])
+
+
 def run_case(spec):
     res = common.new_result(spec)
-    (run_operator if spec['kind'] == 'operator' else run_tensor)(spec, res)
+    {'operator': run_operator, 'tensor': run_tensor, 'sequence': run_sequence}[spec['kind']](spec, res)
     return res
